@@ -9,6 +9,7 @@ import (
 	"encoding/hex"
 	"encoding/json"
 	"fmt"
+	"image"
 	"image/color"
 	"io"
 	"math"
@@ -355,6 +356,17 @@ func c20Workload(seed int64, fonts *c20Fonts, reps int, sharedPDF bool) []c20Cal
 				ctx.DrawPath(30, 20, genPath(r, pathOpts{Kinds: kAll, MaxSegs: 4, MaxSubs: 1, Closed: 2, MildCurve: true, CircArcs: true, Scale: 0.2}))
 				face := family.Face(8, canvas.Black, canvas.FontRegular, canvas.FontNormal)
 				ctx.DrawText(5, 35, canvas.NewTextLine(face, fmt.Sprintf("Canvas %d — fi", i), canvas.Left))
+				if i%2 == 1 {
+					// a raster image: its encoding is an option of the back-ends
+					img := image.NewRGBA(image.Rect(0, 0, 6, 4))
+					for k := range img.Pix {
+						img.Pix[k] = uint8(40*i + 13*k)
+						if k%4 == 3 {
+							img.Pix[k] = 255
+						}
+					}
+					ctx.DrawImage(40, 5, img, canvas.DPMM(1))
+				}
 				return c
 			}
 			add("rasterizer.Draw", func() string {
@@ -387,6 +399,32 @@ func c20Workload(seed int64, fonts *c20Fonts, reps int, sharedPDF bool) []c20Cal
 			}
 			// the PDF writer subsets the font; in the main workload every PDF call has a font of its own
 			add("pdf", func() string { return pdfOf(ownFamily()) })
+			if i%2 == 1 {
+				// renderers configured through their setters after New(nil options): what one renderer is
+				// told must not reach another one
+				add("pdf(setters)", func() string {
+					var buf bytes.Buffer
+					c := build(ownFamily())
+					r := pdf.New(&buf, c.W, c.H, nil)
+					r.SetImageEncoding(canvas.Lossy)
+					r.SetInfo("t", "s", "k", "a", "c")
+					r.SetLang("en")
+					c.RenderTo(r)
+					r.Close()
+					return digestBytes(normalizeFonts(c20DateRe.ReplaceAll(buf.Bytes(), []byte("D:0"))))
+				})
+				add("svg(setters)", func() string {
+					var buf bytes.Buffer
+					c := build(fonts.family)
+					r := svg.New(&buf, c.W, c.H, nil)
+					r.SetImageEncoding(canvas.Lossy)
+					r.SetCustomStyle("path{stroke-linejoin:round}")
+					r.AddClass("k")
+					c.RenderTo(r)
+					r.Close()
+					return digestBytes(normalizeFonts(buf.Bytes()))
+				})
+			}
 			if sharedPDF {
 				add("pdf(shared font)", func() string { return pdfOf(fonts.family) })
 			}
@@ -432,6 +470,16 @@ func runCall(c c20Call) (d string) {
 }
 
 func c20TunablesDefault() bool {
+	// the option defaults of the back-ends are package variables too
+	if pd := pdf.DefaultOptions; !pd.Compress || !pd.SubsetFonts || pd.ImageEncoding != canvas.Lossless {
+		return false
+	}
+	if sd := svg.DefaultOptions; sd.Compression != 0 || !sd.EmbedFonts || sd.SubsetFonts || sd.SizeUnits != "mm" || sd.ImageEncoding != canvas.Lossless {
+		return false
+	}
+	if qd := ps.DefaultOptions; qd.Format != ps.PostScript || qd.ImageEncoding != canvas.Lossless {
+		return false
+	}
 	return canvas.Tolerance == 0.01 && canvas.Epsilon == 1e-10 && canvas.Precision == 8 && canvas.BentleyOttmannEpsilon == 1e-8 && !canvas.FastStroke && canvas.PixelTolerance == 0.1
 }
 
